@@ -131,6 +131,41 @@ func r12b(c *core.Ctx) {
 			}
 		}
 	}
+	// or the scan lives in a helper called with the query: it returns true only on the OPT-type edge of a scan of its
+	// parameter's additionals, and false otherwise
+	if call, ok := cond.(*ssa.Call); ok && !okScan {
+		if h := core.StaticCallee(call); h != nil && h.Pkg == hm.Pkg && h.Blocks != nil && len(h.Params) >= 1 {
+			// the message handed over is the query (a parameter of handleReqMsg)
+			var msgPar *ssa.Parameter
+			for k, a := range call.Call.Args {
+				if _, isPar := a.(*ssa.Parameter); isPar && strings.HasSuffix(a.Type().String(), "dnsmsg.Msg") && k < len(h.Params) {
+					msgPar = h.Params[k]
+				}
+			}
+			good := msgPar != nil
+			nTrue := 0
+			for _, ret := range returnsOf(h) {
+				rs := core.ReturnResults(ret)
+				b, isC := core.ConstBool(rs[0])
+				switch {
+				case !isC:
+					good = false
+				case b:
+					nTrue++
+					if !hasCond(ret.Block(), ".Hdr().Type == 41)", true) {
+						good = false
+					}
+					if msgPar != nil && !strings.Contains(condList(ret.Block()), msgPar.Name()+".Additionals") && !rangesOver(h, ret.Block(), msgPar.Name()+".Additionals") {
+						good = false
+					}
+				}
+			}
+			if good && nTrue > 0 {
+				okScan = true
+				desc = "decided by " + core.FuncName(h)
+			}
+		}
+	}
 	c.Check(okScan, "client-edns-detected-from-query", add.Pos(), hm, "`client supports EDNS0` is true exactly when a record of type OPT was found in the query's additional section", desc)
 	c.Check(core.Expr(add.Common().Args[0]) == "rc.Response.Msg" && core.Expr(add.Common().Args[1]) == "1200", "add-opt-args", add.Pos(), hm, "the response gets the proxy's own OPT (UDP size 1200)", core.Expr(add.Common().Args[0])+", "+core.Expr(add.Common().Args[1]))
 	c.Check(core.Expr(pop.Common().Args[0]) == "rc.Response.Msg", "remove-opt-args", pop.Pos(), hm, "without client EDNS0 any OPT is removed from the response", core.Expr(pop.Common().Args[0]))
